@@ -12,11 +12,19 @@ pub fn any_below(n: u8) -> u8
     x
 }
 
-// ---- TypeId made cheap for CBMC (`-Z stubbing`; every K2 harness carries both stub attributes) -------------
-// `TypeId` is an array of pointers whose `==` transmutes both sides to `u128`; CBMC cannot fold that, so every
-// map lookup keyed by a `TypeId` became a symbolic branch and table shapes multiplied (2^k after k inserts).
-// Under the stubs a `TypeId` holds the address of a per-type function and `==` compares that address, which CBMC
-// decides during symbolic execution.  Contract kept: `of::<T>() == of::<U>()` iff `T` and `U` are the same type.
+use bevy::prelude::{World, Commands, Query};
+use bevy::ecs::query::{QueryData, QueryFilter};
+
+/// `Commands` writing into the world's own queue, not tied to a borrow of `world` (model-internal raw pointers)
+pub fn cmds(wp: *mut World) -> Commands<'static, 'static> { unsafe { (*wp).commands() } }
+/// a `Query` over the world, not tied to a borrow
+pub fn qry<D: QueryData, F: QueryFilter>(wp: *mut World) -> Query<'static, 'static, D, F> { Query::m_new(wp) }
+
+// ---- TypeId made cheap for CBMC (`-Z stubbing`) -------------------------------------------------------------
+// `TypeId` is an array of pointers whose `==` transmutes both sides to `u128`; on values loaded from the heap
+// that pointer->integer conversion is very expensive for CBMC.  Under the stubs a `TypeId` holds the address of a
+// per-type function and `==` compares that address as a pointer.  Contract kept: `of::<T>() == of::<U>()` iff `T`
+// and `U` are the same type.
 pub fn tid_marker<T: 'static + ?Sized>() -> &'static str { core::any::type_name::<T>() }
 pub fn stub_typeid_of<T: 'static + ?Sized>() -> core::any::TypeId
 {
